@@ -45,7 +45,7 @@ public:
 
     virtual void setProperty_double(const std::string &name, double value) {
         char buf[64];
-        sprintf(buf, "%.8lf", value);
+        sprintf(buf, "%.17lg", value);
         setProperty(name, buf);
     }
 
